@@ -52,7 +52,7 @@ def schemaJ (s : Schema) : Json :=
        ("query", optJ s.query), ("mutation", optJ s.mutation), ("subscription", optJ s.subscription)]
 
 def tumJ (t : TUM.Table) : Json :=
-  jarr (t.map (fun (T, p) => obj [("type", T), ("node", p.implementsNode),
+  jarr (t.map (fun (T, p) => obj [("type", T), ("node", p.isNode),
     ("fields", jarr (p.fields.map (fun (f, u) => strArr [f, u])))]))
 
 def dflt : Option String → String
@@ -83,7 +83,7 @@ def itemsOf (s : Schema) : List String :=
       ++ "|" ++ ",".intercalate (TUM.sortStrings d.locations) ++ "|" ++ (if d.repeatable then "true" else "false"))
 
 def tumItemsOf (t : TUM.Table) : List String :=
-  t.flatMap (fun (T, p) => ("N|" ++ T ++ "|" ++ (if p.implementsNode then "true" else "false")) ::
+  t.flatMap (fun (T, p) => ("N|" ++ T ++ "|" ++ (if p.isNode then "true" else "false")) ::
     p.fields.map (fun (f, u) => "R|" ++ T ++ "|" ++ f ++ "|" ++ u))
 
 def pickFacts (s : String) : Gen.Merge.Facts :=
@@ -92,7 +92,7 @@ def pickFacts (s : String) : Gen.Merge.Facts :=
   | "expected" => Gen.Merge.expected
   | _ => Gen.Merge.facts
 
-def kindsJ (es : List MergeErr) : Json := strArr (TUM.dedup (es.map (·.kind)))
+def kindsJ (es : List MergeErr) : Json := strArr (Tum.dedup (es.map (·.kind)))
 
 def handle : Handler
   | "c03.merge", j =>
